@@ -377,6 +377,14 @@ Definition set_step (X : list nat) (n : nat) (e : event) : nat * bool :=
 Definition predict (X : list nat) (fn : init_fn) (cpu : N) : st_result nat :=
   init_model nat (set_step X) fn cpu 0.
 
+(* same selection, but answering 0 outside the CORRUPT phase (the library ignores it there) *)
+Definition set_step0 (X : list nat) (n : nat) (e : event) : nat * bool :=
+  (fst (set_step X n e), match e with EvCorrupt => snd (set_step X n e) | _ => false end).
+Definition predict0 (X : list nat) (fn : init_fn) (cpu : N) : st_result nat :=
+  init_model nat (set_step0 X) fn cpu 0.
+Definition predict_nocb (fn : init_fn) (cpu : N) : st_result unit :=
+  init_model unit null_step fn cpu tt.
+
 (* callback-side view of an event stream: the answers a machine gives to the CORRUPT events *)
 Section Replay.
   Variable S : Type.
